@@ -658,7 +658,11 @@ def parse_instr(p, line):
             idx.append(int(p.next()[1]))
         I.update(a=a, e=e, idx=idx)
     elif op == 'landingpad':
-        I.update(op='landingpad')
+        t = p.type()
+        cl = []
+        for mm in re.finditer(r'\bcatch i8\* (null|bitcast \([^@]*@("[^"]+"|[^\s)]+) to i8\*\)|@("[^"]+"|[^\s),]+))', line):
+            cl.append(None if mm.group(1) == 'null' else (mm.group(2) or mm.group(3)).strip('"'))
+        I.update(op='landingpad', ty=t, clauses=cl, cleanup=bool(re.search(r'\bcleanup\b', line)))
     elif op == 'resume':
         I.update(op='resume')
     elif op == 'fence':
@@ -899,6 +903,9 @@ class Emitter:
         self.adhoc_by_size = {}
         self.frame_defs = []
         self.auto_resumable = False
+        self.exceptions = False
+        self.used_ti = set()
+        self.nounwind = set()
         self.shared_yield = False
         self.yield_calls = set()
         self.yield_after = set()
@@ -1051,6 +1058,9 @@ class Emitter:
             g = self.m.globals.get(n)
             if g is not None and g.get('alias') is not None:
                 return self.cv(t, g['alias'], ctx)
+            if self.exceptions and n.startswith('_ZTI'):
+                self.used_ti.add(n)
+                return '((u8*)&%s)' % self.gname(n)
             if n.startswith('_ZTI') or n.startswith('_ZTS') or n.startswith('_ZTVN10__cxxabiv'):
                 return '((u8*)0)'
             self.used_globals.add(n)
@@ -1453,6 +1463,11 @@ class Emitter:
         st = self.emit_structs(self.used_types + [t for (t, _) in self.anon.values()])
         # anon structs may have been added during emission of structs: iterate to fixpoint
         st = self.emit_structs(self.used_types + [t for (t, _) in self.anon.values()])
+        if self.exceptions:
+            # typeinfo objects are identity tags: those of classes defined in this module are defined here, the std:: ones in env/env_exc.c
+            for n in sorted(self.used_ti):
+                g = self.m.globals.get(n)
+                gdecl.append(('u8* %s;' if (g is not None and g['init'] is not None) else 'extern u8* %s;') % self.gname(n))
         raddr = ['u8 %s_addr; /* identity of a step function whose address is taken */' % self.fname(n) for n in fs if n in self.resumable]
         out = hdr + st + list(self.arr_typedefs.values()) + protos + raddr + gdecl + self.frame_defs + gl + bodies
         if True:
@@ -1535,6 +1550,11 @@ class Emitter:
 
         def goto(src, dst):
             return '%sgoto L_%s;' % (phi_moves(src, dst), san(dst))
+
+        if self.m.resolve(f.ret).k == 'void':
+            exc_return = 'return;'
+        else:
+            exc_return = '{ %s; memset(&ir2c_z_, 0, sizeof ir2c_z_); return ir2c_z_; }' % self.decl(f.ret, 'ir2c_z_')
 
         # operator new(const): allocate a TYPED object so that CBMC keeps it field-sensitive.
         #  (a) result bitcast to a struct pointer of exactly that size -> that struct
@@ -1620,6 +1640,8 @@ class Emitter:
                     work.extend([d for _, d in I['cases']] + [I['default']])
                 elif I['op'] == 'invoke':
                     work.append(I['normal'])
+                    if self.exceptions:
+                        work.append(I['unwind'])
         for lab, b in f.blocks.items():
             if lab not in normal:
                 continue
@@ -1691,6 +1713,11 @@ class Emitter:
                     L.append('  %s = %s;' % (r, self.gep_expr(I['srcty'], I['ops'], ctx)))
                 elif op in ('call', 'invoke'):
                     L.extend(self.emit_call(I, ctx, declare, yield_cb))
+                    if self.exceptions and self.may_throw(I):
+                        if op == 'invoke':
+                            L.append('  if (ir2c_exc) { %s }' % goto(lab, I['unwind']))
+                        else:
+                            L.append('  if (ir2c_exc) { %s }' % exc_return)
                     if op == 'invoke':
                         L.append('  ' + goto(lab, I['normal']))
                 elif op == 'br':
@@ -1725,6 +1752,26 @@ class Emitter:
                     L.append('  %s = %s;' % (r, self.cv(t, v, ctx)))
                     e, et = self.agg_path(t, r, I['idx'])
                     L.append('  %s = %s;' % (e, self.cv(*I['e'], ctx)))
+                elif op in ('landingpad', 'resume') and self.exceptions:
+                    ctx.decls['ir2c_lp_exc'] = 'u8* ir2c_lp_exc'
+                    ctx.decls['ir2c_lp_obj'] = 'u8* ir2c_lp_obj'
+                    if op == 'landingpad':
+                        # the exception in flight is parked in this frame (cleanup code calls functions); the selector is that of the
+                        # first matching catch clause (0: none -> the generated dispatch code falls through to resume)
+                        L.append('  ir2c_lp_exc = ir2c_exc; ir2c_lp_obj = ir2c_exc_obj; ir2c_last_exc = ir2c_exc; ir2c_last_obj = ir2c_exc_obj; ir2c_exc = 0;')
+                        if I['res'] is not None:
+                            r = declare(I, I['ty'])
+                            e0, _ = self.agg_path(I['ty'], r, [0])
+                            e1, _ = self.agg_path(I['ty'], r, [1])
+                            L.append('  %s = ir2c_lp_obj; %s = 0;' % (e0, e1))
+                            for cn in I['clauses']:
+                                if cn is None:
+                                    L.append('  if (%s == 0) %s = 1;' % (e1, e1))
+                                else:
+                                    self.used_ti.add(cn)
+                                    L.append('  if (%s == 0 && ir2c_exc_match(ir2c_lp_exc, (u8*)&%s)) %s = ir2c_typeid((u8*)&%s);' % (e1, self.gname(cn), e1, self.gname(cn)))
+                    else:
+                        L.append('  ir2c_exc = ir2c_lp_exc; ir2c_exc_obj = ir2c_lp_obj; %s' % exc_return)
                 elif op in ('landingpad', 'resume'):
                     L.append('  IR2C_UNREACHABLE(); /* %s */' % op)
                     if op == 'landingpad' and I['res'] is not None:
@@ -1831,6 +1878,8 @@ class Emitter:
                     L.append('  %s = %s(%s);' % (r, base.split('.')[1], a[0]))
                 elif base.startswith('llvm.ctlz') or base.startswith('llvm.cttz') or base.startswith('llvm.ctpop'):
                     L.append('  %s = IR2C_%s%d(%s);' % (r, base.split('.')[1].upper(), t.bits, a[0]))
+                elif base.startswith('llvm.eh.typeid.for'):
+                    L.append('  %s = ir2c_typeid(%s);' % (r, a[0]))
                 elif base.startswith('llvm.expect'):
                     L.append('  %s = %s;' % (r, a[0]))
                 elif base.startswith('llvm.va_start'):
@@ -1897,6 +1946,15 @@ class Emitter:
             r = declare(I, rt)
             L.append('  %s = %s;' % (r, call))
         return L
+
+    def may_throw(self, I):
+        c = I['callee']
+        if c[0] != 'global':
+            return True
+        n = c[1]
+        if n.startswith('llvm.') or n in self.nounwind or n in ('_Znwm', '_Znam', '_ZdlPv', '_ZdaPv', 'memcpy', 'memset', 'memmove', 'strlen', 'free', 'malloc'):
+            return False
+        return True
 
     def vtables(self):
         if getattr(self, '_vt', None) is None:
@@ -2258,8 +2316,10 @@ def main():
     ap.add_argument('--shared-yield', action='store_true')
     ap.add_argument('--auto-resumable', action='store_true')
     ap.add_argument('--meta', default=None)
+    ap.add_argument('--exceptions', action='store_true', help='model C++ exceptions: in-flight flag ir2c_exc, landing pads, resume (env/env_exc.c)')
     a = ap.parse_args()
-    m = parse_module(open(a.ll).read())
+    text = open(a.ll).read()
+    m = parse_module(text)
     rep = dict(x.split('=', 1) for x in a.replace)
     res = [x for x in a.resumable.split(',') if x]
     e = Emitter(m, a.prefix, rep, res, a.monitor)
@@ -2268,6 +2328,18 @@ def main():
     e.yield_twophase = set(x for x in a.yield_twophase.split(',') if x)
     e.shared_yield = a.shared_yield
     e.auto_resumable = a.auto_resumable
+    e.exceptions = a.exceptions
+    if a.exceptions:
+        groups = {}
+        for ln in text.split('\n'):
+            mm = re.match(r'attributes #(\d+) = \{(.*)\}', ln)
+            if mm and re.search(r'\bnounwind\b', mm.group(2)):
+                groups[mm.group(1)] = True
+        for ln in text.split('\n'):
+            if ln.startswith('define ') or ln.startswith('declare '):
+                mm = re.search(r'@("[^"]+"|[-a-zA-Z$._0-9]+)\(', ln)
+                if mm and (re.search(r'\bnounwind\b', ln) or any(g in groups for g in re.findall(r'#(\d+)', ln[ln.rfind(')'):]))):
+                    e.nounwind.add(mm.group(1).strip('"'))
     roots = [x for x in a.roots.split(',') if x]
     if not roots:
         roots = [n for n in m.funcs if n.startswith('vf_')]
